@@ -8,7 +8,8 @@ from vcheck.hcommon import pin, pinned, tier
 
 N_MAX = tier(4, 5)
 
-WIDE = ["a", " ", "\t", "\r", "é", "€", "😀", ";"]
+# 1-octet chars incl. SP/TAB/CR, and the first/last code points of the 2-, 3- and 4-octet classes
+WIDE = ["a", " ", "\t", "\r", "\x80", "\u07ff", "\u0800", "\uffff", "\U00010000", "😀"]
 
 
 def _c(x, n):
@@ -25,13 +26,13 @@ def h_fold_unfold(a: int, b: int, c: int, d: int, e: int, n: int, limit: int) ->
     added space, and the unfold regex restores the line exactly.
 
     pre: 0 <= n <= N_MAX and 5 <= limit <= 7 and pinned("limit", limit) and pinned("a", a)
-    pre: 0 <= a < 8 and 0 <= b < 8 and 0 <= c < 8 and 0 <= d < 8 and 0 <= e < 8
+    pre: 0 <= a < 10 and 0 <= b < 10 and 0 <= c < 10 and 0 <= d < 10 and 0 <= e < 10
     post: _
     """
     limit = pin("limit", limit)
     a = pin("a", a)
     idx = [a, b, c, d, e][:_c(n, 6)]
-    line = "".join(WIDE[_c(i, 8)] for i in idx)
+    line = "".join(WIDE[_c(i, 10)] for i in idx)
     out = foldline(line, limit)
     phys = out.split("\r\n")
     for k, p in enumerate(phys):
@@ -56,11 +57,11 @@ def h_contentline(a: int, b: int, n: int) -> bool:
     character pair after a fixed name.
 
     pre: 0 <= n <= 80 and pinned("n", n)
-    pre: 0 <= a < 8 and 0 <= b < 8
+    pre: 0 <= a < 10 and 0 <= b < 10
     post: _
     """
     n = pin("n", n)
-    text = "DESCRIPTION:" + (WIDE[_c(a, 8)] + WIDE[_c(b, 8)]) * n
+    text = "DESCRIPTION:" + (WIDE[_c(a, 10)] + WIDE[_c(b, 10)]) * n
     cl = Contentline(text)
     raw = cl.to_ical()
     for p in raw.split(b"\r\n"):
